@@ -291,6 +291,13 @@ def H_keys(ctx, cfg):
 
 def H_params(ctx, cfg):
     """set_info_params x get_encoder: every (type, encoding, data_type) combination the generator emits is accepted."""
+    bad, n = _params_bad()
+    ctx.input("bad", bad)
+    ctx.sample(dict(combinations=n))
+    ctx.prove(not bad, "encoders-accept-what-set_info_params-produces", detail=str(bad[:3]))
+
+
+def _params_bad():
     gsi = load.mod("scripts.generate_scales_info")
     ce = load.mod("chunk_encoding")
     bad = []
@@ -314,9 +321,7 @@ def H_params(ctx, cfg):
                         ok = False
                     if ok != expect_ok or (dt in ("uint8", "uint16") and sc["encoding"] == "compressed_segmentation" and info["data_type"] != "uint32"):
                         bad.append([dt, enc_in, typ, pre_enc, info["data_type"], sc["encoding"], ok])
-    ctx.input("bad", bad)
-    ctx.sample(dict(combinations=n))
-    ctx.prove(not bad, "encoders-accept-what-set_info_params-produces", detail=str(bad[:3]))
+    return bad, n
 
 
 def H_json(ctx, cfg):
@@ -398,6 +403,9 @@ def replay(cfg, cex):
                 if parsed != json.loads(json.dumps(ref)):
                     return True, f"stored info differs from the generated dictionary for size {size}, resolution {res}"
         return False, "generate-scales-info writes valid JSON on the real code"
+    if cfg["harness"] == "params":
+        bad, _ = _params_bad()          # the enumeration again, on the real modules
+        return bool(bad), f"(data type, --encoding, --type, existing encoding, resulting data type, resulting encoding, accepted): {bad[:3]}"
     if cfg["harness"] != "structure":
         return bool(cex["inputs"].get("bad")), str(cex["inputs"].get("bad"))[:300]
     size = cex["inputs"]["size"]
